@@ -117,23 +117,72 @@ def solve_text(text, timeout_s=10, strings=None, solvers=None):
     return result
 
 
-def discharge_texts(texts, timeout_s=10, jobs=None):
-    """Same as discharge() for ready-made SMT-LIB texts."""
-    results = [None] * len(texts)
-    quick = max(2, min(4, timeout_s // 2))
-    with cf.ThreadPoolExecutor(max_workers=jobs or max(2, NPROC - 2)) as ex:
-        futs = {ex.submit(solve_text, t, quick, None, ["z3new"]): i for i, t in enumerate(texts)}
-        for f in cf.as_completed(futs):
-            results[futs[f]] = f.result()
-    rest = [i for i, r in enumerate(results) if r["status"] not in ("sat", "unsat")]
-    if rest:
-        with cf.ThreadPoolExecutor(max_workers=max(2, (jobs or NPROC) // 3)) as ex:
-            futs = {ex.submit(solve_text, texts[i], timeout_s): i for i in rest}
+PHASE2_BUDGET_S = int(os.environ.get("PYVC_PHASE2_BUDGET", "0"))
+
+
+def _phase2(rest, texts, results, timeout_s, jobs):
+    """Second phase: the VCs z3 did not decide quickly go to the whole portfolio, a few at a time.  A wall-clock
+    budget (default 20 x the per-VC time-out) bounds the phase: on a tree where hundreds of VCs no longer
+    discharge (a changed function whose contract no longer fits) the remaining ones stay 'unknown' -- they are
+    reported as undecided, never as violations -- instead of costing a quarter of an hour."""
+    if not rest:
+        return
+    workers = max(2, (jobs or NPROC) // 3)
+    budget = PHASE2_BUDGET_S or 20 * timeout_s
+    t0 = time.time()
+    for k in range(0, len(rest), workers):
+        chunk = rest[k:k + workers]
+        if time.time() - t0 > budget:
+            for i in rest[k:]:
+                results[i] = dict(results[i], status="unknown", solver="-",
+                                  detail="second-phase budget (%d s) exhausted after %d of %d open VCs" % (budget, k, len(rest)))
+            return
+        with cf.ThreadPoolExecutor(max_workers=workers) as ex:
+            futs = {ex.submit(solve_text, texts[i], timeout_s): i for i in chunk}
             for f in cf.as_completed(futs):
                 i = futs[f]
                 r = f.result()
                 r["time"] = round(r["time"] + results[i]["time"], 3)
                 results[i] = r
+
+
+def _only_unsat(r, variant):
+    """A verdict on the VC WITHOUT the global well-typedness facts: fewer hypotheses, so only `unsat` carries over."""
+    if r["status"] == "unsat":
+        return dict(r, solver=r["solver"] + "/" + variant)
+    return dict(r, status="unknown", solver="-", detail="(%s VC) %s" % (variant, r.get("detail", ""))[:300])
+
+
+def discharge_texts(texts, timeout_s=10, jobs=None, cores=None):
+    """Discharge ready-made SMT-LIB texts.  cores[i] (optional) is VC i without the global well-typedness facts of
+    the heap: it is tried first (a proof from fewer hypotheses is a proof; any other answer is ignored)."""
+    results = [None] * len(texts)
+    quick = max(2, min(4, timeout_s // 2))
+    todo = list(range(len(texts)))
+    if cores is not None:
+        with cf.ThreadPoolExecutor(max_workers=jobs or max(2, NPROC - 2)) as ex:
+            futs = {ex.submit(solve_text, cores[i], quick, None, ["z3new"]): i for i in todo if cores[i]}
+            for f in cf.as_completed(futs):
+                r = _only_unsat(f.result(), "core")
+                if r["status"] == "unsat":
+                    results[futs[f]] = r
+        todo = [i for i in todo if results[i] is None]
+    with cf.ThreadPoolExecutor(max_workers=jobs or max(2, NPROC - 2)) as ex:
+        futs = {ex.submit(solve_text, texts[i], quick, None, ["z3new"]): i for i in todo}
+        for f in cf.as_completed(futs):
+            results[futs[f]] = f.result()
+    rest = [i for i, r in enumerate(results) if r["status"] not in ("sat", "unsat")]
+    if cores is not None and rest:
+        # the portfolio on the small VC first
+        tmp = {i: dict(results[i]) for i in rest}
+        _phase2([i for i in rest if cores[i]], cores, tmp, timeout_s, jobs)
+        for i in rest:
+            r = _only_unsat(tmp[i], "core") if tmp[i].get("status") == "unsat" else None
+            if r is not None:
+                r["time"] = round(r["time"], 3)
+                results[i] = r
+        rest = [i for i in rest if results[i]["status"] not in ("sat", "unsat")]
+    _phase2(rest, texts, results, timeout_s, jobs)
     return results
 
 
@@ -177,21 +226,8 @@ def discharge(obligations, timeout_s=10, jobs=None, progress=None):
     Phase 2: what is left on the whole portfolio concurrently (z3 5.1, cvc5, z3 4.8), fewer VCs at a time so
     that the budget is not eaten by contention."""
     texts = [to_smt2(o.pc, o.goal, get_model=True) for o in obligations]
-    results = [None] * len(texts)
-    quick = max(2, min(4, timeout_s // 2))
-    with cf.ThreadPoolExecutor(max_workers=jobs or max(2, NPROC - 2)) as ex:
-        futs = {ex.submit(solve_text, t, quick, None, ["z3new"]): i for i, t in enumerate(texts)}
-        for f in cf.as_completed(futs):
-            results[futs[f]] = f.result()
-    rest = [i for i, r in enumerate(results) if r["status"] not in ("sat", "unsat")]
-    if rest:
-        with cf.ThreadPoolExecutor(max_workers=max(2, (jobs or NPROC) // 3)) as ex:
-            futs = {ex.submit(solve_text, texts[i], timeout_s): i for i in rest}
-            for f in cf.as_completed(futs):
-                i = futs[f]
-                r = f.result()
-                r["time"] = round(r["time"] + results[i]["time"], 3)
-                results[i] = r
+    cores = [to_smt2(o.pc[o.nglob:], o.goal) if getattr(o, "nglob", 0) else None for o in obligations]
+    results = discharge_texts(texts, timeout_s, jobs, cores)
     for i, r in enumerate(results):
         r["smt2_len"] = len(texts[i])
     return results, texts
